@@ -56,6 +56,12 @@ func safeLoad(s string) (r loadRes) {
 		}
 	}()
 	r.cfg, r.err = Load(s)
+	if r.err == nil {
+		// what LoadFile does next with an accepted configuration (on a second copy, so that r.cfg stays as loaded)
+		if c2, err := Load(s); err == nil {
+			resolveFilepaths("/etc/alertmanager", c2)
+		}
+	}
 	return r
 }
 
@@ -326,6 +332,12 @@ func c17Injectors() []c17Inj {
 		{"null-interval-item", func(p *c17Parts) { p.intervals += "-\n" }},
 		{"valid-mute-and-active", func(p *c17Parts) { p.childExtra += "    mute_time_intervals: [t1]\n    active_time_intervals: [t1]\n" }},
 		{"valid-group_by-all", func(p *c17Parts) { p.childExtra += "    group_by: ['...']\n" }},
+		{"valid-match_re-empty-value", func(p *c17Parts) { p.childExtra += "    match_re: { x: '' }\n" }},
+		{"valid-match-empty-value", func(p *c17Parts) { p.grandExtra += "      match: { x: '' }\n" }},
+		{"valid-match_re-dot-star-and-match", func(p *c17Parts) { p.childExtra += "    match_re: { x: '.*', y: 'a|' }\n    match: { z: 'q' }\n" }},
+		{"valid-source_match_re-empty-value", func(p *c17Parts) {
+			p.inhibit += "- source_match_re: { s: '' }\n  target_match: { t: '' }\n  equal: [e]\n"
+		}},
 	}
 }
 
